@@ -6,12 +6,11 @@ the loop.  Here each iterator is transcribed as the sequence of its state-changi
 (`Instr`), in statement order; `exec` runs it on a context state and returns what the consumer sees
 at every `yield` (value and context state) and the state after normal exhaustion; `closeAfter k` is
 the state when the consumer abandons the generator after the k-th yield (Python closes a generator at
-its `yield`: the statements after it — the restore — do not run; none of the iterators has
-`try/finally`).
-`EPV/Lemmas/AxesState.lean` proves: the yielded values are `iterAxis`; every iterator except the
-namespace axis restores (item, axis) on exhaustion; at every yield `axis` is the axis name and `item`
-is the yielded node — except for the dummy-document branch of `iter_children_or_self` (finding F01i);
-the test-on-yielded-item step semantics of `EPV/Model/Paths.lean` (`evalStep`) is what results.
+its `yield`; since fix 8377c57 every iterator restores in a `finally:` clause, which runs then too).
+`EPV/Lemmas/AxesState.lean` proves: the yielded values are `iterAxis`; every iterator restores
+(item, axis) on exhaustion and on early close; at every yield of an axis method `axis` is the axis
+name and `item` is the yielded node (the helper `iter_children_or_self` alone does not move the item
+for the dummy document; `select__child_axis` does); the test-on-the-state step semantics is `evalStep`.
 -/
 import EPV.Model.Paths
 namespace EPV.XP
@@ -39,10 +38,20 @@ def exec : List Instr → Ctx → List (Nat × Ctx) × Ctx
   | .restore s :: is, _ => exec is s
   | .restoreAxis ax :: is, c => exec is { c with axis := ax }
 
-/-- the state left behind when the generator is closed right after its k-th yield (k ≥ 1);
-`none` if it yields fewer than k values -/
+/-- the `finally:` clause of a helper generator: its trailing restore statement (since fix 8377c57 every
+context iterator restores in a `finally`, so the restore also runs when the consumer closes the
+generator early or an exception passes through) -/
+def finalizer (prog : List Instr) : List Instr :=
+  match prog.getLast? with
+  | some (.restore s) => [.restore s]
+  | some (.restoreAxis ax) => [.restoreAxis ax]
+  | some (.setItem n) => [.setItem n]        -- namespace axis: `finally: context.item = elem`
+  | _ => []
+
+/-- the state left behind when the generator is closed right after its k-th yield (k ≥ 1): the state at
+that yield, then the `finally` clause; `none` if it yields fewer than k values -/
 def closeAfter (k : Nat) (prog : List Instr) (c : Ctx) : Option Ctx :=
-  ((exec prog c).1[k - 1]?).map (·.2)
+  ((exec prog c).1[k - 1]?).map fun yc => (exec (finalizer prog) yc.2).2
 
 /-- `for self.item in xs: yield self.item` -/
 def loopItems (xs : List Nat) : List Instr := xs.flatMap fun x => [.setItem x, .yield x]
@@ -100,8 +109,39 @@ def prog (m : Mode) (a : Arr) (ax : Axis) (c : Ctx) : List Instr :=
   | .following =>                              -- iter_followings
     if isAN a n || kd a n == .doc then []
     else [.setAxis (some .following)] ++ loopItems (iterFollowings m a n) ++ [.restore c]
-  | .namespace =>                              -- select__namespace_axis: `context.item = item; yield item`
-    loopItems (iterNamespaces a n)             --   no axis, no restore
+  | .namespace =>                              -- select__namespace_axis: `context.item = item; yield item`,
+    loopItems (iterNamespaces a n) ++ [.setItem n]   --   `finally: context.item = elem`; no axis
+
+/-- what the helper generator behind an axis yields: `iterAxis`, except for the two helpers pinned by
+the suite, whose axis methods treat attribute / namespace context nodes themselves -/
+def helperAxis (m : Mode) (a : Arr) : Axis → Nat → List Nat
+  | .following, n => iterFollowings m a n
+  | .attribute, n => iterAttributes a n
+  | ax, n => iterAxis m a ax n
+
+/-- the axis METHODS `select__*_axis` of `_xpath1_axes.py` as statement sequences: the helper generator,
+except
+  * `attribute::` / `@` return at once for an attribute context node (fix F01c)
+  * `following::` from an attribute / namespace node: `context.axis = 'following'`, loop over the owner's
+    descendants, `context.item = owner`, `iter_followings()`, restore (fix F01b)
+  * `child::` from the dummy document with `context.axis is None`: item := root element, axis := 'child',
+    the test, then item := document, axis := None (fix F01i) -/
+def axisProg (m : Mode) (a : Arr) (ax : Axis) (c : Ctx) : List Instr :=
+  match ax with
+  | .attribute => if kd a c.item == .attr then [] else prog m a .attribute c
+  | .following =>
+    if isAN a c.item then
+      match par a c.item with
+      | some p =>
+        [.setAxis (some .following)] ++ loopItems (descRange a p) ++
+          ([.setItem p] ++ prog m a .following ⟨p, some .following⟩ ++ [.restore c])
+      | none => [.restore c]
+    else prog m a .following c
+  | .child =>
+    if c.axis.isNone && isDummyDoc m c.item then
+      [.setItem (rootIdx m), .setAxis (some .child), .yield (rootIdx m), .setItem c.item, .setAxis none]
+    else prog m a .child c
+  | ax => prog m a ax c
 
 /-- `iter_descendants()` as called by `//` (axis argument `None`) -/
 def progDslash (m : Mode) (a : Arr) (c : Ctx) : List Instr :=
@@ -134,8 +174,8 @@ def testAtYield (m : Mode) (a : Arr) (t : Test) (c : Ctx) : List Nat :=
 test on the context *state*.  (The namespace axis tests its nodes itself, by prefix.) -/
 def evalStepState (m : Mode) (a : Arr) (ax : Axis) (t : Test) (c : Ctx) : List Nat :=
   if ax == .namespace then
-    ((exec (prog m a ax c) c).1.map (·.1)).filter (matchTest m a .ns t)
-  else (exec (prog m a ax c) c).1.flatMap fun yc => testAtYield m a t yc.2
+    ((exec (axisProg m a ax c) c).1.map (·.1)).filter (matchTest m a .ns t)
+  else (exec (axisProg m a ax c) c).1.flatMap fun yc => testAtYield m a t yc.2
 
 /-- an abbreviated step (`x`, `*`, `node()` …, no axis token): the test's own `select` loops over
 `iter_children_or_self()` / `iter_matching_nodes` with `context.axis is None` and tests the
